@@ -50,7 +50,8 @@ def one_schema(args):
         fresh = r.random() < (0.3 if clone else 0.15)
         if fresh: g.long_vectors = 0.4
         by_args = ci % 6 == 0      # a bottom-up case (style 0) in which every table whose fields are all present is built by <T>_create(B, args...)
-        if by_args: g.share, g.skip = 0.0, 0.05      # no shared objects, nearly every field present
+        if by_args:      # no shared objects, nearly every field present; kept small (a full tree grows exponentially with depth)
+            g.share, g.skip, g.budget, g.maxdepth, g.long_vectors = 0.0, 0.05, 30, min(g.maxdepth, 3), 0.0
         ti = r.randrange(len(tabs))
         try:
             t = g.table(ti, 0, False)
